@@ -27,7 +27,7 @@ Refused == /\ Is("refused")
            /\ UNCHANGED <<tid, S, npid, step>>
 Made == /\ Is("made")
         /\ Mark(All(<<Check("setup.valid", ValidSetup),
-                      Check("startup.empty_release_refused", ~NoRowInWindow(S.cfg, S.table))>>))
+                      Check("startup.empty_release_refused", ~NoRowInWindow(S.cfg, S.table) \/ TailRelease(S.cfg, S.table))>>))
         /\ UNCHANGED <<tid, S, npid, step>>
 
 \* release time stamped on a particle: the row's own time (discrete) or the tick time (continuous)
